@@ -24,7 +24,11 @@ LEVEL_NOTE = ("Exact part only: near-edge sub-range queries on non-dyadic config
               "C13-bin-near-edge. Sub-ranges entirely outside the binned domain are outside the claim.")
 TECHNIQUE = "Lean 4 proof (view consistency, views agree with route) + accessor correspondence + consistency/grid/projection oracle"
 LEAN_MODULE = "Hg.Props.C13"
-THEOREMS = []
+THEOREMS = ["Hg.C13.binIndex_spec", "Hg.C13.sparse_idx_spec", "Hg.C13.edges_length", "Hg.C13.centers_length", "Hg.C13.entries_length",
+            "Hg.C13.center_between", "Hg.C13.route_in_edges", "Hg.C13.entryAt_route",
+            "Hg.C13.sparse_edges_length", "Hg.C13.sparse_entries_length", "Hg.C13.sparse_edges_get", "Hg.C13.sparse_entries_get",
+            "Hg.C13.sparse_route_idx", "Hg.C13.sparse_entryAt_route", "Hg.C13.central_pick_eq_index", "Hg.C13.central_index_lt",
+            "Hg.C13.central_index_eq_of_no_tie", "Hg.C13.central_entries_centers_length", "Hg.C13.irregular_pick_lowerIndex"]
 CASES = {"quick": 260, "thorough": 8000}
 RULE = ("per case one 1-D container (Bin / SparselyBin / CentrallyBin / IrregularlyBin over Count or a profile leaf) with a dyadic "
         "configuration, filled with 0..14 records, queried with the full range and 6 sub-ranges (bounds on edges, between edges, "
